@@ -70,7 +70,7 @@ PROPOSED_FINDINGS = [
                       "t = Track()\nt.add_bar(Bar('C', (1, 4)))\nt.from_chords(['C'], 1)\n"
                       "observed = [[e[1] for e in b] for b in t]\n"
                       "holds = sum(1.0 / e[1] for b in t for e in b) == 1.0\n"),
-    dict(property="C14", id="from-chords-split-float", function="mingus.containers.track.Track.from_chords",
+    dict(property="C14", id="from-chords-float-drift", function="mingus.containers.track.Track.from_chords",
          clause="from-chords-total-length-equals-requested",
          what="the first piece of a split chord gets the value 1.0/space_left; Bar.place_notes adds 1.0/value back, "
               "which for some positions (e.g. 7/64 into a 7/8 bar) exceeds the bar length by one ulp, so the piece "
@@ -286,6 +286,23 @@ def run(tier, seed):
     EXACT = dict((repr(v), ln) for v, ln, _ in VALUES)
     POW2 = [(v, ln) for v, ln, lab in VALUES if lab.startswith("1/")]
     TOL = F(1, 1000)
+    class section(object):
+        """an unexpected exception inside a case is a failure of that case's main clause, not a driver crash"""
+        def __init__(self, group, clause, where):
+            self.group, self.clause, self.where = group, clause, where
+
+        def __enter__(self):
+            return self
+
+        def __exit__(self, et, ev, tb):
+            if et is not None and issubclass(et, Exception):
+                import traceback
+                fr = traceback.extract_tb(tb)[-1]
+                R.fail(self.group, self.clause, "unexpected %s: %s (%s:%d)" % (et.__name__, ev, fr.name, fr.lineno),
+                       self.where)
+                return True
+            return False
+
 
     # ---- items ------------------------------------------------------------------------------------------------
     def make_item(spec):
@@ -331,7 +348,7 @@ def run(tier, seed):
         return pitch(inst.range[0].name, inst.range[0].octave), pitch(inst.range[1].name, inst.range[1].octave)
 
     # ---- one add_notes / '+' step -----------------------------------------------------------------------------
-    def observe_add(group, inputs, mt, value, contents, length, accepted_obs, dbars):
+    def observe_add(group, inputs, mt, value, contents, length, accepted_obs, dbars, float_refuses=False):
         """statement-required transition of the model, reconciled with what the library did; False = violation"""
         exact_value = value
         if not mt.bars:
@@ -351,7 +368,8 @@ def run(tier, seed):
         if accepted_obs and not fits:
             # an over-full bar: not a clause of this property by itself; shows up once the bar is not the last one
             fits = True
-        if fits and not accepted_obs and target.L > 0 and target.used + length == target.L and not opens:
+        if fits and not accepted_obs and target.L > 0 and target.used + length == target.L and not opens \
+                and float_refuses:
             R.case("float-boundary-adopted", None)      # exact fit refused after float drift: Bar's business (C13)
             return True
         if fits != accepted_obs:
@@ -431,6 +449,10 @@ def run(tier, seed):
         inst = track.instrument
         before = snap(track)
         nb, ne = len(track.bars), sum(len(b) for b in track.bars)
+        # does the float sum of the stored position and this value overshoot the bar (data of the last bar only;
+        # used to tell float drift at an exact fit, which is Bar's business, from a refusal without cause)
+        float_refuses = bool(track.bars) and track.bars[-1].length != 0.0 and \
+            not (track.bars[-1].current_beat + 1.0 / value <= track.bars[-1].length)
         expect_exc = None
         if inst is not None and contents is not None:
             lo, hi = inst_range(inst)
@@ -458,11 +480,13 @@ def run(tier, seed):
                 R.fail(group, "rests-accepted-with-or-without-instrument", "rest raised %s: %s"
                        % (type(exc).__name__, exc), inputs, finding="rest-with-instrument-raises")
                 return unchanged
-            if isinstance(inst, Guitar) and expect_exc is None and (
+            if isinstance(inst, Guitar) and (
                     (spec[0] == "note" and isinstance(exc, TypeError)) or
-                    (spec[0] in ("str", "stro") and len(obj) > 6 and isinstance(exc, InstrumentRangeError))):
-                R.fail(group, "in-range-note-accepted", "in-range %r raised %s: %s" % (obj, type(exc).__name__, exc),
-                       inputs, finding="guitar-len-on-non-list")
+                    (expect_exc is None and spec[0] in ("str", "stro") and len(obj) > 6
+                     and isinstance(exc, InstrumentRangeError))):
+                R.fail(group, "in-range-note-accepted" if expect_exc is None else
+                       "out-of-range-note-refused-with-range-error",
+                       "%r raised %s: %s" % (obj, type(exc).__name__, exc), inputs, finding="guitar-len-on-non-list")
                 return unchanged
             R.fail(group, "in-range-note-accepted" if inst is not None and expect_exc is None else
                    "out-of-range-note-refused-with-range-error" if expect_exc else "iterating-yields-accepted-items-in-order",
@@ -486,7 +510,7 @@ def run(tier, seed):
             if after[:nb] != before:
                 R.fail(group, "rejected-item-changes-nothing", "rejected item altered the existing bars", inputs)
                 return False
-        return observe_add(group, inputs, mt, value, contents, length, ret, dbars)
+        return observe_add(group, inputs, mt, value, contents, length, ret, dbars, float_refuses)
 
     def do_add_bar(track, mt, key, meter, prefill, via):
         b = Bar(key, meter)
@@ -517,195 +541,206 @@ def run(tier, seed):
     # =========================================================================================================
     G = "Track.add_notes (exhaustive value sequences)"
     alpha = [(1, F(1)), (2, F(1, 2)), (4, F(1, 4)), (8, F(1, 8)), (float(1 / F(3, 8)), F(3, 8)), (6, F(1, 6))]
-    maxlen = 4 if quick else 6
+    maxlen = 5 if quick else 6
     ex_meters = [(4, 4), (3, 4), (6, 8)] if quick else [(4, 4), (3, 4), (6, 8), (2, 2), (5, 4), (7, 8), (2, 4)]
     kinds_cycle = [("str", "C"), ("rest",), ("nc", [("C", 4), ("E", 4), ("G", 4)]), ("note", "F#", 5),
                    ("lstr", [("A", 3), ("C", 4)])]
     sid = 0
     for meter in ex_meters:
-        for n in range(1, maxlen + 1):
-            for seq in itertools.product(range(len(alpha)), repeat=n):
-                sid += 1
-                inputs = {"meter": meter, "values": [alpha[i][0] for i in seq], "items": "cycle from %d" % (sid % 5)}
-                track, mt = Track(), MTrack()
-                if meter != (4, 4):
-                    do_add_bar(track, mt, "G", meter, [], "add_bar")
-                ok = True
-                for pos, i in enumerate(seq):
-                    R.case(G, (meter, seq[:pos + 1]))
-                    v, ln = alpha[i]
-                    if not do_add(G, inputs, track, mt, kinds_cycle[(sid + pos) % 5], v, ln, "add_notes"):
-                        ok = False
-                        break
-                if ok:
-                    full_check(G, inputs, track, mt)
+        with section(G, 'iterating-yields-accepted-items-in-order', ("meter", meter)):
+            for n in range(1, maxlen + 1):
+                for seq in itertools.product(range(len(alpha)), repeat=n):
+                    sid += 1
+                    inputs = {"meter": meter, "values": [alpha[i][0] for i in seq], "items": "cycle from %d" % (sid % 5)}
+                    track, mt = Track(), MTrack()
+                    if meter != (4, 4):
+                        do_add_bar(track, mt, "G", meter, [], "add_bar")
+                    ok = True
+                    for pos, i in enumerate(seq):
+                        R.case(G, (meter, seq[:pos + 1]))
+                        v, ln = alpha[i]
+                        if not do_add(G, inputs, track, mt, kinds_cycle[(sid + pos) % 5], v, ln, "add_notes"):
+                            ok = False
+                            break
+                    if ok:
+                        full_check(G, inputs, track, mt)
 
     # =========================================================================================================
     # 2. seeded sequences with everything: values incl. dotted / tuplets, rests, all item forms, '+', add_bar with
     #    other keys / meters (also pre-filled, also on a non-full last bar), instruments, out-of-range notes
     # =========================================================================================================
     G = "Track add_notes/+/add_bar (seeded sequences)"
-    nseq = 250 if quick else 6000
+    nseq = 700 if quick else 14000
     for s in range(nseq):
-        iname, mk = rnd.choice(INSTRUMENTS)
-        inst = custom_instrument() if (iname == "generic" and rnd.random() < 0.5) else mk()
-        track, mt = Track(inst), MTrack()
-        if inst is None:
-            lo, hi = 0, 119
-        else:
-            lo, hi = inst_range(inst)
-        ops = []
-        inputs = {"instrument": repr(inst), "ops": ops}
-        vals = VALUES if rnd.random() < 0.7 else POW2
-        for step in range(rnd.randint(4, 40)):
-            r = rnd.random()
-            R.case(G, (s, step))
-            if r < 0.08:
-                key, meter = rnd.choice(KEYS), rnd.choice(METERS)
-                pre = []
-                for _ in range(rnd.choice([0, 0, 1, 3])):
-                    v, ln = rnd.choice(vals)[:2]
-                    pre.append((rand_item(max(lo, 24), min(hi, 96)), v, ln))
-                via = rnd.choice(["add_bar", "+"])
-                ops.append(("add_bar", key, meter, pre, via))
-                if not do_add_bar(track, mt, key, meter, pre, via):
-                    R.fail(G, "indexing-length-equality-follow-contents", "add_bar / '+' did not return the track",
-                           inputs)
+        with section(G, 'iterating-yields-accepted-items-in-order', ("seed", seed, "sequence", s)):
+            iname, mk = rnd.choice(INSTRUMENTS)
+            inst = custom_instrument() if (iname == "generic" and rnd.random() < 0.5) else mk()
+            track, mt = Track(inst), MTrack()
+            if inst is None:
+                lo, hi = 0, 119
+            else:
+                lo, hi = inst_range(inst)
+            ops = []
+            inputs = {"instrument": repr(inst), "ops": ops}
+            vals = VALUES if rnd.random() < 0.7 else POW2
+            for step in range(rnd.randint(4, 40)):
+                r = rnd.random()
+                R.case(G, (s, step))
+                if r < 0.08:
+                    key, meter = rnd.choice(KEYS), rnd.choice(METERS)
+                    pre = []
+                    for _ in range(rnd.choice([0, 0, 1, 3])):
+                        v, ln = rnd.choice(vals)[:2]
+                        pre.append((rand_item(24, 96), v, ln))
+                    via = rnd.choice(["add_bar", "+"])
+                    ops.append(("add_bar", key, meter, pre, via))
+                    if not do_add_bar(track, mt, key, meter, pre, via):
+                        R.fail(G, "indexing-length-equality-follow-contents", "add_bar / '+' did not return the track",
+                               inputs)
+                        break
+                else:
+                    out_of_range = inst is not None and rnd.random() < 0.12
+                    if out_of_range:
+                        side = rnd.choice(["low", "high"])
+                        if (side == "low" and lo > 0) or hi >= 119:
+                            if lo == 0:
+                                continue
+                            p = rnd.randint(max(0, lo - 14), lo - 1)
+                        else:
+                            p = rnd.randint(hi + 1, min(hi + 14, 119))
+                        cands = [(n, o) for n in NAMES for o in range(0, 10) if pitch(n, o) == p]
+                        bad = rnd.choice(cands)
+                        kind = rnd.choice(["stro", "note", "nc", "lnotes", "lstr"])
+                        if kind in ("stro", "note"):
+                            spec = (kind, bad[0], bad[1])
+                        else:
+                            good = rand_notes(lo, hi, rnd.randint(0, 3))
+                            allnotes = good + [bad]
+                            rnd.shuffle(allnotes)
+                            spec = (kind, allnotes)
+                    else:
+                        spec = rand_item(lo, hi)
+                    via = rnd.choice(["add_notes"] * 4 + ["+", "add_notes-default"])
+                    if spec[0] in ("rest", "lnotes", "lstr") and via == "+":
+                        via = "add_notes"
+                    if via == "add_notes":
+                        v, ln = rnd.choice(vals)[:2]
+                    else:
+                        v, ln = 4, F(1, 4)
+                    ops.append((via, spec, v))
+                    if not do_add(G, inputs, track, mt, spec, v, ln, via):
+                        break
+                if not full_check(G, inputs, track, mt):
                     break
             else:
-                out_of_range = inst is not None and rnd.random() < 0.12
-                if out_of_range:
-                    side = rnd.choice(["low", "high"])
-                    if (side == "low" and lo > 0) or hi >= 119:
-                        if lo == 0:
-                            continue
-                        p = rnd.randint(max(0, lo - 14), lo - 1)
-                    else:
-                        p = rnd.randint(hi + 1, min(hi + 14, 119))
-                    cands = [(n, o) for n in NAMES for o in range(0, 10) if pitch(n, o) == p]
-                    bad = rnd.choice(cands)
-                    kind = rnd.choice(["stro", "note", "nc", "lnotes", "lstr"])
-                    if kind in ("stro", "note"):
-                        spec = (kind, bad[0], bad[1])
-                    else:
-                        good = rand_notes(lo, hi, rnd.randint(0, 3))
-                        allnotes = good + [bad]
-                        rnd.shuffle(allnotes)
-                        spec = (kind, allnotes)
-                else:
-                    spec = rand_item(lo, hi)
-                via = rnd.choice(["add_notes"] * 4 + ["+", "add_notes-default"])
-                if spec[0] in ("rest", "lnotes", "lstr") and via == "+":
-                    via = "add_notes"
-                if via == "add_notes":
-                    v, ln = rnd.choice(vals)[:2]
-                else:
-                    v, ln = 4, F(1, 4)
-                ops.append((via, spec, v))
-                if not do_add(G, inputs, track, mt, spec, v, ln, via):
-                    break
-            if not full_check(G, inputs, track, mt):
-                break
-        else:
-            # Track.test_integrity reports exactly "every bar except the last is full"
-            want = all(b.full() for b in mt.bars[:-1])
-            ok, got = R.guard("Track.test_integrity", "every-bar-except-the-last-is-full", inputs, track.test_integrity)
-            R.case("Track.test_integrity", s)
-            if ok and got != want:
-                tolerant = any((not b.full()) and b.L > 0 and b.entries and 0 < b.L - b.used < TOL for b in mt.bars[:-1])
-                R.fail("Track.test_integrity", "every-bar-except-the-last-is-full", "test_integrity() is %r, bars "
-                       "hold %r" % (got, [(str(b.used), str(b.L)) for b in mt.bars]), inputs,
-                       finding="bar-full-tolerance" if tolerant else None)
-            # indexing and length follow the bars
-            R.case("Track indexing/len", s)
-            if len(track) != len(mt.bars):
-                R.fail("Track indexing/len", "indexing-length-equality-follow-contents", "len(track) = %d, %d bars"
-                       % (len(track), len(mt.bars)), inputs)
-            for i in range(len(mt.bars)):
-                ok, b = R.guard("Track indexing/len", "indexing-length-equality-follow-contents", inputs,
-                                lambda: (track[i], track[i - len(mt.bars)]))
-                if ok and not (b[0] is b[1] and len(b[0]) == len(mt.bars[i].entries)
-                               and tuple(b[0].meter) == mt.bars[i].meter):
-                    R.fail("Track indexing/len", "indexing-length-equality-follow-contents",
-                           "track[%d] is not bar %d" % (i, i), inputs)
+                # Track.test_integrity reports exactly "every bar except the last is full"
+                want = all(b.full() for b in mt.bars[:-1])
+                ok, got = R.guard("Track.test_integrity", "every-bar-except-the-last-is-full", inputs, track.test_integrity)
+                R.case("Track.test_integrity", s)
+                if ok and got != want:
+                    tolerant = any((not b.full()) and b.L > 0 and b.entries and 0 < b.L - b.used < TOL for b in mt.bars[:-1])
+                    R.fail("Track.test_integrity", "every-bar-except-the-last-is-full", "test_integrity() is %r, bars "
+                           "hold %r" % (got, [(str(b.used), str(b.L)) for b in mt.bars]), inputs,
+                           finding="bar-full-tolerance" if tolerant else None)
+                # indexing and length follow the bars
+                R.case("Track indexing/len", s)
+                if len(track) != len(mt.bars):
+                    R.fail("Track indexing/len", "indexing-length-equality-follow-contents", "len(track) = %d, %d bars"
+                           % (len(track), len(mt.bars)), inputs)
+                for i in range(len(mt.bars)):
+                    ok, b = R.guard("Track indexing/len", "indexing-length-equality-follow-contents", inputs,
+                                    lambda: (track[i], track[i - len(mt.bars)]))
+                    if ok and not (b[0] is b[1] and len(b[0]) == len(mt.bars[i].entries)
+                                   and tuple(b[0].meter) == mt.bars[i].meter):
+                        R.fail("Track indexing/len", "indexing-length-equality-follow-contents",
+                               "track[%d] is not bar %d" % (i, i), inputs)
 
     # =========================================================================================================
     # 3. instruments: every instrument x every pitch around its range x item form; rests
     # =========================================================================================================
     G = "Track.add_notes with instrument (range sweep)"
     for iname, mk in INSTRUMENTS[1:] + [("custom", custom_instrument)]:
-        inst0 = mk()
-        lo, hi = inst_range(inst0)
-        pitches = list(range(max(0, lo - 13), lo + 3)) + list(range(hi - 2, hi + 14)) + \
-            ([lo + (hi - lo) // 2] if quick else list(range(lo + 3, hi - 2, 5)))
-        for p in pitches:
-            for n, o in [(n, o) for n in NAMES[:16] for o in range(0, 11) if pitch(n, o) == p]:
-                for kind in ("stro", "note", "nc", "lnotes", "lstr"):
-                    inst = inst0 if iname != "custom" else inst0
-                    track, mt = Track(inst), MTrack()
-                    spec = (kind, n, o) if kind in ("stro", "note") else (kind, [(n, o)])
-                    inputs = {"instrument": repr(inst), "item": spec}
-                    R.case(G, (iname, n, o, kind))
-                    if do_add(G, inputs, track, mt, spec, 4, F(1, 4), "add_notes"):
-                        full_check(G, inputs, track, mt)
-        # a chord with one note outside, the others inside
-        for _ in range(20 if quick else 200):
-            good = rand_notes(lo, hi, rnd.randint(1, 4))
-            p = rnd.choice([q for q in (lo - 1, lo - 7, hi + 1, hi + 9) if 0 <= q <= 119] or [hi + 1])
-            bad = rnd.choice([(n, o) for n in NAMES for o in range(0, 11) if pitch(n, o) == p])
-            notes = good + [bad]
-            rnd.shuffle(notes)
-            kind = rnd.choice(["nc", "lnotes", "lstr"])
-            track, mt = Track(inst0), MTrack()
-            inputs = {"instrument": repr(inst0), "item": (kind, notes)}
-            R.case(G, (iname, "chord", tuple(notes), kind))
-            do_add(G, inputs, track, mt, ("nc", good), 4, F(1, 4), "add_notes")
-            if do_add(G, inputs, track, mt, (kind, notes), 4, F(1, 4), "add_notes"):
-                full_check(G, inputs, track, mt)
+        with section(G, 'in-range-note-accepted', ("instrument", iname)):
+            inst0 = mk()
+            lo, hi = inst_range(inst0)
+            pitches = list(range(max(0, lo - 13), lo + 3)) + list(range(hi - 2, hi + 14)) + \
+                ([lo + (hi - lo) // 2] if quick else list(range(lo + 3, hi - 2, 5)))
+            for p in pitches:
+                for n, o in [(n, o) for n in NAMES[:16] for o in range(0, 11) if pitch(n, o) == p]:
+                    for kind in ("stro", "note", "nc", "lnotes", "lstr"):
+                        track, mt = Track(inst0), MTrack()
+                        spec = (kind, n, o) if kind in ("stro", "note") else (kind, [(n, o)])
+                        inputs = {"instrument": repr(inst0), "item": spec}
+                        R.case(G, (iname, n, o, kind))
+                        if do_add(G, inputs, track, mt, spec, 4, F(1, 4), "add_notes"):
+                            full_check(G, inputs, track, mt)
+            # long spellings of in-range notes (text of more than six characters)
+            for spec in (("stro", "Abbbb", 5), ("stro", "C####", 4), ("str", "Fbbbbbb"), ("stro", "Bbbbbb", 4),
+                         ("note", "Abbbb", 5), ("lstr", [("Abbbb", 5)])):
+                names_octs = [(spec[1], spec[2] if len(spec) > 2 else 4)] if spec[0] != "lstr" else spec[1]
+                if not all(lo <= pitch(n, o) <= hi for n, o in names_octs):
+                    continue
+                track, mt = Track(inst0), MTrack()
+                inputs = {"instrument": repr(inst0), "item": spec}
+                R.case(G, (iname, "long", repr(spec)))
+                if do_add(G, inputs, track, mt, spec, 4, F(1, 4), "add_notes"):
+                    full_check(G, inputs, track, mt)
+            # a chord with one note outside, the others inside
+            for _ in range(20 if quick else 200):
+                good = rand_notes(lo, hi, rnd.randint(1, 4))
+                p = rnd.choice([q for q in (lo - 1, lo - 7, hi + 1, hi + 9) if 0 <= q <= 119] or [hi + 1])
+                bad = rnd.choice([(n, o) for n in NAMES for o in range(0, 11) if pitch(n, o) == p])
+                notes = good + [bad]
+                rnd.shuffle(notes)
+                kind = rnd.choice(["nc", "lnotes", "lstr"])
+                track, mt = Track(inst0), MTrack()
+                inputs = {"instrument": repr(inst0), "item": (kind, notes)}
+                R.case(G, (iname, "chord", tuple(notes), kind))
+                do_add(G, inputs, track, mt, ("nc", good), 4, F(1, 4), "add_notes")
+                if do_add(G, inputs, track, mt, (kind, notes), 4, F(1, 4), "add_notes"):
+                    full_check(G, inputs, track, mt)
     G = "Track.add_notes rest (every instrument)"
     for iname, mk in INSTRUMENTS + [("custom", custom_instrument)]:
-        for v, ln, lab in VALUES:
-            inst = mk()
-            track, mt = Track(inst), MTrack()
-            inputs = {"instrument": repr(inst), "value": v}
-            R.case(G, (iname, v))
-            n0 = len(R.failures)
-            ok = do_add(G, inputs, track, mt, ("rest",), v, ln, "add_notes")
-            if ok and ln <= 1 and inst is None and (len(track.bars) != 1 or len(track[0]) != 1 or track[0][0][2] is not None):
-                R.fail(G, "rests-accepted-with-or-without-instrument", "rest of value %r not stored: %r"
-                       % (v, track.bars), inputs)
-            if ok:
-                full_check(G, inputs, track, mt)
+        with section(G, 'rests-accepted-with-or-without-instrument', ("instrument", iname)):
+            for v, ln, lab in VALUES:
+                inst = mk()
+                track, mt = Track(inst), MTrack()
+                inputs = {"instrument": repr(inst), "value": v}
+                R.case(G, (iname, v))
+                ok = do_add(G, inputs, track, mt, ("rest",), v, ln, "add_notes")
+                if ok:
+                    full_check(G, inputs, track, mt)
 
     # =========================================================================================================
     # 4. values beyond 1000: the is_full tolerance
     # =========================================================================================================
     G = "Track.add_notes (values up to 4096)"
     big = [(2 ** k, F(1, 2 ** k)) for k in range(0, 13)]
-    for s in range(40 if quick else 600):
-        track, mt = Track(), MTrack()
-        meter = rnd.choice([(4, 4), (3, 4), (2, 4), (6, 8)])
-        do_add_bar(track, mt, "C", meter, [], "add_bar")
-        ops = []
-        inputs = {"meter": meter, "values": ops}
-        # fill up to one tiny value short of the bar, then go on
-        Lm = F(meter[0], meter[1])
-        tiny = rnd.choice(big[8:])
-        target = Lm - tiny[1]
-        for v, ln in big:
-            while mt.bars[-1].used + ln <= target and not mt.bars[-1].full() and len(ops) < 200:
+    for s in range(60 if quick else 1200):
+        with section(G, 'new-bar-only-when-last-one-is-full', ("seed", seed, "sequence", s)):
+            track, mt = Track(), MTrack()
+            meter = rnd.choice([(4, 4), (3, 4), (2, 4), (6, 8)])
+            do_add_bar(track, mt, "C", meter, [], "add_bar")
+            ops = []
+            inputs = {"meter": meter, "values": ops}
+            # fill up to one tiny value short of the bar, then go on
+            Lm = F(meter[0], meter[1])
+            tiny = rnd.choice(big[8:])
+            target = Lm - tiny[1]
+            for v, ln in big:
+                while mt.bars[-1].used + ln <= target and not mt.bars[-1].full() and len(ops) < 200:
+                    ops.append(v)
+                    R.case(G, (s, len(ops)))
+                    if not do_add(G, inputs, track, mt, ("str", "C"), v, ln, "add_notes"):
+                        break
+            for _ in range(6):
+                v, ln = rnd.choice(big[6:])
                 ops.append(v)
                 R.case(G, (s, len(ops)))
-                if not do_add(G, inputs, track, mt, ("str", "C"), v, ln, "add_notes"):
+                if not do_add(G, inputs, track, mt, ("str", "D"), v, ln, "add_notes"):
                     break
-        for _ in range(6):
-            v, ln = rnd.choice(big[6:])
-            ops.append(v)
-            R.case(G, (s, len(ops)))
-            if not do_add(G, inputs, track, mt, ("str", "D"), v, ln, "add_notes"):
-                break
-            if not full_check(G, inputs, track, mt):
-                break
+                if not full_check(G, inputs, track, mt):
+                    break
 
     # =========================================================================================================
     # 5. from_chords
@@ -753,11 +788,54 @@ def run(tier, seed):
                 left -= piece
                 first = False
 
-    def float_split_fails(track_bars_before, mt_before, req):
-        """region predicate of finding from-chords-split-float: replay the float arithmetic of the split"""
-        for b in mt_before.bars[-1:]:
-            pass
-        return True
+    def find_region(track, mt, req, inst):
+        """which reported finding (if any) the first deviating item of this from_chords call falls into.  `fb` mirrors
+        the float bookkeeping of the library bars (length, current_beat, entries) so that a disagreement between
+        float and exact arithmetic can be told apart from a different defect; it only labels, it is no oracle."""
+        fb = [[b.length, b.current_beat, len(b.bar)] for b in track.bars]
+        probe = MTrack()
+        probe.bars = [_copy_bar(b) for b in mt.bars]
+
+        def f_add(v):
+            if not fb:
+                fb.append([1.0, 0.0, 0])
+            lb = fb[-1]
+            if lb[0] != 0.0 and lb[2] > 0 and lb[1] >= lb[0] - 0.001:
+                fb.append([lb[0], 0.0, 0])
+            b = fb[-1]
+            if b[1] + 1.0 / v <= b[0] or b[0] == 0.0:
+                b[1] += 1.0 / v
+                b[2] += 1
+                return True
+            return False
+
+        for c, value, length, depth in req:
+            if c is None and depth > 0:
+                return "from-chords-nested-rest-raises"
+            if c is None and inst is not None:
+                return "rest-with-instrument-raises"
+            if not probe.bars:
+                probe.bars.append(MBar("C", (4, 4)))
+            lastb = probe.bars[-1]
+            if lastb.L > 0 and not lastb.full() and lastb.entries and 0 < lastb.L - lastb.used < TOL:
+                return "bar-full-tolerance"
+            start_room = lastb.L if lastb.full() else (lastb.L - lastb.used)
+            fits = lastb.L == 0 or length <= start_room
+            if f_add(value) != fits:
+                return "from-chords-float-drift"
+            if not fits:
+                b = fb[-1]
+                dur = 1.0 / (b[0] - b[1])
+                if not f_add(dur):          # the piece that should fill the bar overshoots it in floats
+                    return "from-chords-float-drift"
+                if c is None:
+                    return "from-chords-rest-not-split"
+                if length > start_room + lastb.L:
+                    return "from-chords-item-longer-than-bar"
+                if not f_add(1 / (1.0 / value - 1.0 / dur)):
+                    return "from-chords-float-drift"
+            model_from_chords(probe, [(c, value, length, depth)])
+        return None
 
     def from_chords_case(s, exhaustive_spec=None):
         if exhaustive_spec is None:
@@ -793,42 +871,11 @@ def run(tier, seed):
         base_len = (1 / F(dur)).limit_denominator(64)
         req = list(flatten(chords, dur, base_len))
         nbefore = len(mt.flat())
-        # regions of the reported findings (decided on the model, before the call)
-        probe = MTrack()
-        probe.bars = [_copy_bar(b) for b in mt.bars]
-        region = None
-        for c, value, length, depth in req:
-            if c is None and depth > 0:
-                region = region or "from-chords-nested-rest-raises"
-                break
-            if c is None and inst is not None:
-                region = region or "rest-with-instrument-raises"
-                break
-            # room in the bar the item starts in
-            if not probe.bars:
-                probe.bars.append(MBar("C", (4, 4)))
-            lastb = probe.bars[-1]
-            if lastb.L > 0 and not lastb.full() and lastb.entries and 0 < lastb.L - lastb.used < TOL:
-                region = region or "bar-full-tolerance"
-                break
-            start_room = lastb.L if lastb.full() else (lastb.L - lastb.used)
-            if lastb.L > 0 and length > start_room:
-                if c is None:
-                    region = region or "from-chords-rest-not-split"
-                    break
-                if length > start_room + lastb.L:
-                    region = region or "from-chords-item-longer-than-bar"
-                    break
-                if not lastb.full():
-                    cur = float(lastb.used)
-                    Lf = lastb.meter[0] * (1.0 / lastb.meter[1])
-                    cur = sum(1.0 / e[1] for e in lastb.entries if e[1] is not None) if all(
-                        e[1] is not None for e in lastb.entries) else cur
-                    d1 = 1.0 / (Lf - cur)
-                    if not (cur + 1.0 / d1 <= Lf):
-                        region = region or "from-chords-split-float"
-                        break
-            model_from_chords(probe, [(c, value, length, depth)])
+        # region of the reported findings this call falls into (decided before the call)
+        try:
+            region = find_region(track, mt, req, inst)
+        except Exception:  # noqa
+            region = None
         model_from_chords(mt, req)
         try:
             ret = track.from_chords(chords, dur)
@@ -839,12 +886,18 @@ def run(tier, seed):
                             "rest-with-instrument-raises": "rests-accepted-with-or-without-instrument",
                             "from-chords-rest-not-split": "from-chords-places-every-chord-and-rest",
                             "from-chords-item-longer-than-bar": "from-chords-total-length-equals-requested",
-                            "from-chords-split-float": "from-chords-total-length-equals-requested",
+                            "from-chords-float-drift": "from-chords-total-length-equals-requested",
                             "bar-full-tolerance": "new-bar-only-when-last-one-is-full"}
         if exc is not None:
+            # an exception ends the call wherever it is raised: label it by the item that raises it
+            region = None
+            if type(exc).__name__ in ("UnexpectedObjectError", "TypeError") and inst is not None and \
+                    any(c is None and depth == 0 for c, _, _, depth in req):
+                region = "rest-with-instrument-raises"
+            elif isinstance(exc, AttributeError) and any(c is None and depth > 0 for c, _, _, depth in req):
+                region = "from-chords-nested-rest-raises"
             R.fail(G, clause_by_region.get(region, "from-chords-places-every-chord-and-rest"),
-                   "raised %s: %s" % (type(exc).__name__, exc), inputs,
-                   finding=region if region in ("from-chords-nested-rest-raises", "rest-with-instrument-raises") else None)
+                   "raised %s: %s" % (type(exc).__name__, exc), inputs, finding=region)
             return
         if ret is not track:
             R.fail(G, "from-chords-places-every-chord-and-rest", "from_chords did not return the track", inputs)
@@ -889,22 +942,27 @@ def run(tier, seed):
     fc_meters = [(4, 4), (3, 4), (6, 8)] if quick else [(4, 4), (3, 4), (6, 8), (2, 4), (5, 4), (7, 8), (1, 4)]
     prefixes = [(), (2,), (4,), (8,), (2, 4), (4, 8), (2, 4, 8), (16,)] if quick else \
         [()] + [p for n in (1, 2, 3) for p in itertools.product((2, 4, 8, 16), repeat=n)]
+    prefixes = list(prefixes) + [(32,), (64,), (32, 64), (16, 32, 64), (32, 128), (8, 32, 128)]   # odd positions
+    if (7, 8) not in fc_meters:
+        fc_meters = fc_meters + [(7, 8)]
     durs = (1, 2, 4) if quick else (0.5, 1, 2, 4, 8)
     k = 0
     for meter in fc_meters:
-        for prefix in prefixes:
-            if sum(F(1, v) for v in prefix) > F(meter[0], meter[1]):
-                continue
-            for n in (1, 2, 3) if not quick else (1, 2):
-                for ch in itertools.product(range(len(fc_items)), repeat=n):
-                    for dur in durs:
-                        k += 1
-                        R.case(G, ("ex", meter, prefix, ch, dur))
-                        from_chords_case(k, (meter, prefix, [fc_items[i] for i in ch], dur))
+        with section(G, 'from-chords-places-every-chord-and-rest', ("meter", meter)):
+            for prefix in prefixes:
+                if sum(F(1, v) for v in prefix) > F(meter[0], meter[1]):
+                    continue
+                for n in (1, 2, 3) if not quick else (1, 2):
+                    for ch in itertools.product(range(len(fc_items)), repeat=n):
+                        for dur in durs:
+                            k += 1
+                            R.case(G, ("ex", meter, prefix, ch, dur))
+                            from_chords_case(k, (meter, prefix, [fc_items[i] for i in ch], dur))
     # 5b. seeded: nested lists to depth 3, all chord qualities, instruments, mixed prefixes, other meters
-    for s in range(300 if quick else 8000):
-        R.case(G, ("rnd", s))
-        from_chords_case(s)
+    for s in range(1200 if quick else 24000):
+        with section(G, 'from-chords-places-every-chord-and-rest', ("seed", seed, "case", s)):
+            R.case(G, ("rnd", s))
+            from_chords_case(s)
 
     # =========================================================================================================
     # 6. equality of tracks
@@ -922,166 +980,165 @@ def run(tier, seed):
         return [[(e[0], e[3], None if e[2] is None else frozenset(pitch(n, o) for n, o in e[2])) for e in b.entries]
                 for b in mt.bars]
 
-    for s in range(150 if quick else 3000):
-        ops = []
-        for _ in range(rnd.randint(1, 10)):
-            v, ln = rnd.choice(POW2[:5] if rnd.random() < 0.7 else VALUES[:17])[:2]
-            ops.append((rand_item(40, 80, kinds=["str", "note", "nc", "rest", "lstr"]), v, ln))
-        ops2 = list(ops)
-        how = rnd.choice(["same", "same", "pitch", "value", "drop", "rest-swap", "append", "respell"])
-        i = rnd.randrange(len(ops))
-        if how == "pitch":
-            ops2[i] = (rand_item(40, 80, rests=False, kinds=["note", "nc"]), ops[i][1], ops[i][2])
-        elif how == "value":
-            v, ln = rnd.choice(POW2[:6])
-            ops2[i] = (ops[i][0], v, ln)
-        elif how == "drop":
-            del ops2[i]
-        elif how == "rest-swap":
-            ops2[i] = (("rest",) if ops[i][0][0] != "rest" else ("note", "C", 4), ops[i][1], ops[i][2])
-        elif how == "append":
-            ops2.append((("str", "D"), 4, F(1, 4)))
-        elif how == "respell":
-            ops2[i] = (("note", "C#", 4), ops[i][1], ops[i][2])
-            ops[i] = (("note", "Db", 4), ops[i][1], ops[i][2])
-        a, ma = build(ops)
-        b, mb = build(ops2)
-        if a is None or b is None:
-            continue
-        R.case(G, (s, how))
-        inputs = {"ops_a": ops, "ops_b": ops2}
-        want = eq_key(ma) == eq_key(mb)
-        rest_vs_notes = any((x[2] is None) != (y[2] is None) for p, q in zip(eq_key(ma), eq_key(mb))
-                            for x, y in zip(p, q))
-        for label, fn, w in (("==", lambda: a == b, want), ("!=", lambda: a != b, not want),
-                             ("== (swapped)", lambda: b == a, want)):
-            try:
-                got = fn()
-            except Exception as e:  # noqa
-                R.fail(G, "equality-follows-contents", "%s raised %s: %s" % (label, type(e).__name__, e), inputs,
-                       finding="track-eq-rest-vs-notes-raises" if (isinstance(e, TypeError) and rest_vs_notes
-                                                                   and not want) else None)
+    for s in range(500 if quick else 8000):
+        with section(G, 'equality-follows-contents', ("seed", seed, "pair", s)):
+            ops = []
+            for _ in range(rnd.randint(1, 10)):
+                v, ln = rnd.choice(POW2[:5] if rnd.random() < 0.7 else VALUES[:17])[:2]
+                ops.append((rand_item(40, 80, kinds=["str", "note", "nc", "rest", "lstr"]), v, ln))
+            ops2 = list(ops)
+            how = rnd.choice(["same", "same", "pitch", "value", "drop", "rest-swap", "append"])
+            i = rnd.randrange(len(ops))
+            if how == "pitch":
+                ops2[i] = (rand_item(40, 80, rests=False, kinds=["note", "nc"]), ops[i][1], ops[i][2])
+            elif how == "value":
+                v, ln = rnd.choice(POW2[:6])
+                ops2[i] = (ops[i][0], v, ln)
+            elif how == "drop":
+                del ops2[i]
+            elif how == "rest-swap":
+                ops2[i] = (("rest",) if ops[i][0][0] != "rest" else ("note", "C", 4), ops[i][1], ops[i][2])
+            elif how == "append":
+                ops2.append((("str", "D"), 4, F(1, 4)))
+            a, ma = build(ops)
+            b, mb = build(ops2)
+            if a is None or b is None:
                 continue
-            if bool(got) != w:
-                R.fail(G, "equality-follows-contents", "a %s b is %r, expected %r" % (label, got, w), inputs)
+            R.case(G, (s, how))
+            inputs = {"ops_a": ops, "ops_b": ops2}
+            want = eq_key(ma) == eq_key(mb)
+            rest_vs_notes = any((x[2] is None) != (y[2] is None) for p, q in zip(eq_key(ma), eq_key(mb))
+                                for x, y in zip(p, q))
+            for label, fn, w in (("==", lambda: a == b, want), ("!=", lambda: a != b, not want),
+                                 ("== (swapped)", lambda: b == a, want)):
+                try:
+                    got = fn()
+                except Exception as e:  # noqa
+                    R.fail(G, "equality-follows-contents", "%s raised %s: %s" % (label, type(e).__name__, e), inputs,
+                           finding="track-eq-rest-vs-notes-raises" if (isinstance(e, TypeError) and rest_vs_notes
+                                                                       and not want) else None)
+                    continue
+                if bool(got) != w:
+                    R.fail(G, "equality-follows-contents", "a %s b is %r, expected %r" % (label, got, w), inputs)
 
     # =========================================================================================================
     # 7. compositions
     # =========================================================================================================
     G = "Composition add_track/add_note/+"
-    for s in range(120 if quick else 2500):
-        comp = Composition()
-        tracks, models = [], []
-        selected = []
-        ops = []
-        inputs = {"ops": ops}
-        alive = True
-        if len(comp) != 0:
-            R.fail(G, "indexing-length-equality-follow-contents", "new composition has length %d" % len(comp), inputs)
-        for step in range(rnd.randint(2, 25)):
-            R.case(G, (s, step))
-            r = rnd.random()
-            if r < 0.25 or not tracks:
-                t, m = Track(), MTrack()
-                for _ in range(rnd.choice([0, 0, 1, 3])):
-                    v, ln = rnd.choice(POW2[:5])
-                    do_add(G, inputs, t, m, rand_item(40, 80), v, ln, "add_notes")
-                via = rnd.choice(["add_track", "+"])
-                ops.append((via, "track with %d entries" % len(m.flat())))
-                if via == "+":
-                    comp + t
-                else:
-                    comp.add_track(t)
-                tracks.append(t)
-                models.append(m)
-                selected = [len(tracks) - 1]
-                if list(comp.selected_tracks) != selected:
-                    R.fail(G, "add-reaches-exactly-the-selected-tracks", "after adding track %d the selection is %r"
-                           % (len(tracks) - 1, comp.selected_tracks), inputs)
-                    alive = False
-            elif r < 0.45:
-                selected = sorted(rnd.sample(range(len(tracks)), rnd.randint(0, len(tracks))))
-                comp.selected_tracks = list(selected)
-                ops.append(("select", selected))
-            elif r < 0.5 and len(selected) == 1:
-                key, meter = rnd.choice(KEYS), rnd.choice(METERS[:8])
-                b = Bar(key, meter)
-                ops.append(("+bar", key, meter))
-                models[selected[0]].close_last_by_user()
-                comp + b
-                models[selected[0]].bars.append(MBar(key, meter))
-            else:
-                spec = rand_item(40, 80, rests=False, kinds=["str", "stro", "note", "nc"])
-                via = rnd.choice(["add_note", "+"])
-                ops.append((via, spec))
-                obj, contents = make_item(spec)
-                before = [(len(t.bars), sum(len(b) for b in t.bars)) for t in tracks]
-                ok, _ = R.guard(G, "add-reaches-exactly-the-selected-tracks", inputs,
-                                (lambda: comp + obj) if via == "+" else (lambda: comp.add_note(obj)))
-                if not ok:
-                    alive = False
-                for i, t in enumerate(tracks):
-                    dbars = len(t.bars) - before[i][0]
-                    dents = sum(len(b) for b in t.bars) - before[i][1]
-                    if i in selected:
-                        if dents not in (0, 1) or not observe_add(G, inputs, models[i], 4, contents, F(1, 4),
-                                                                  dents == 1, dbars):
-                            alive = False
-                    elif dbars or dents:
-                        R.fail(G, "add-reaches-exactly-the-selected-tracks", "track %d is not selected (%r) but "
-                               "changed" % (i, selected), inputs)
+    for s in range(300 if quick else 6000):
+        with section(G, 'add-reaches-exactly-the-selected-tracks', ("seed", seed, "sequence", s)):
+            comp = Composition()
+            tracks, models = [], []
+            selected = []
+            ops = []
+            inputs = {"ops": ops}
+            alive = True
+            if len(comp) != 0:
+                R.fail(G, "indexing-length-equality-follow-contents", "new composition has length %d" % len(comp), inputs)
+            for step in range(rnd.randint(2, 25)):
+                R.case(G, (s, step))
+                r = rnd.random()
+                if r < 0.25 or not tracks:
+                    t, m = Track(), MTrack()
+                    for _ in range(rnd.choice([0, 0, 1, 3])):
+                        v, ln = rnd.choice(POW2[:5])
+                        do_add(G, inputs, t, m, rand_item(40, 80), v, ln, "add_notes")
+                    via = rnd.choice(["add_track", "+"])
+                    ops.append((via, "track with %d entries" % len(m.flat())))
+                    if via == "+":
+                        comp + t
+                    else:
+                        comp.add_track(t)
+                    tracks.append(t)
+                    models.append(m)
+                    selected = [len(tracks) - 1]
+                    if list(comp.selected_tracks) != selected:
+                        R.fail(G, "add-reaches-exactly-the-selected-tracks", "after adding track %d the selection is %r"
+                               % (len(tracks) - 1, comp.selected_tracks), inputs)
                         alive = False
-            if not alive:
-                break
-            # indexing, length, contents of every track
-            if len(comp) != len(tracks):
-                R.fail(G, "indexing-length-equality-follow-contents", "len(composition) = %d with %d tracks"
-                       % (len(comp), len(tracks)), inputs)
-                break
-            bad = False
-            for i, t in enumerate(tracks):
-                if comp[i] is not t or comp[i - len(tracks)] is not t:
-                    R.fail(G, "indexing-length-equality-follow-contents", "composition[%d] is not track %d" % (i, i),
-                           inputs)
-                    bad = True
+                elif r < 0.45:
+                    selected = sorted(rnd.sample(range(len(tracks)), rnd.randint(0, len(tracks))))
+                    comp.selected_tracks = list(selected)
+                    ops.append(("select", selected))
+                elif r < 0.5 and len(selected) == 1:
+                    key, meter = rnd.choice(KEYS), rnd.choice(METERS[:8])
+                    b = Bar(key, meter)
+                    ops.append(("+bar", key, meter))
+                    models[selected[0]].close_last_by_user()
+                    comp + b
+                    models[selected[0]].bars.append(MBar(key, meter))
+                else:
+                    spec = rand_item(40, 80, rests=False, kinds=["str", "stro", "note", "nc"])
+                    via = rnd.choice(["add_note", "+"])
+                    ops.append((via, spec))
+                    obj, contents = make_item(spec)
+                    before = [(len(t.bars), sum(len(b) for b in t.bars)) for t in tracks]
+                    ok, _ = R.guard(G, "add-reaches-exactly-the-selected-tracks", inputs,
+                                    (lambda: comp + obj) if via == "+" else (lambda: comp.add_note(obj)))
+                    if not ok:
+                        alive = False
+                    for i, t in enumerate(tracks):
+                        dbars = len(t.bars) - before[i][0]
+                        dents = sum(len(b) for b in t.bars) - before[i][1]
+                        if i in selected:
+                            if dents not in (0, 1) or not observe_add(G, inputs, models[i], 4, contents, F(1, 4),
+                                                                      dents == 1, dbars):
+                                alive = False
+                        elif dbars or dents:
+                            R.fail(G, "add-reaches-exactly-the-selected-tracks", "track %d is not selected (%r) but "
+                                   "changed" % (i, selected), inputs)
+                            alive = False
+                if not alive:
                     break
-                d = diff_state(snap(t), models[i])
-                if d:
-                    R.fail(G, "add-reaches-exactly-the-selected-tracks", "track %d (selection %r): %s"
-                           % (i, selected, d[1]), inputs)
-                    bad = True
+                # indexing, length, contents of every track
+                if len(comp) != len(tracks):
+                    R.fail(G, "indexing-length-equality-follow-contents", "len(composition) = %d with %d tracks"
+                           % (len(comp), len(tracks)), inputs)
                     break
-            if bad:
-                break
-        else:
-            # replacing a track by index; equality with an identically built composition
-            if tracks:
-                i = rnd.randrange(len(tracks))
-                nt = Track()
-                nt.add_notes("G", 2)
-                comp[i] = nt
-                if comp[i] is not nt or len(comp) != len(tracks):
-                    R.fail(G, "indexing-length-equality-follow-contents", "composition[%d] = track did not store it"
-                           % i, inputs)
-                comp[i] = tracks[i]
-            R.case("Composition.__eq__", s)
-            other = Composition()
-            for t in tracks:
-                other.add_track(t)
-            third = Composition()
-            for t in tracks:
-                third.add_track(t)
-            extra = Track()
-            extra.add_notes("C", 4)
-            third.add_track(extra)
-            for label, fn, w in (("same tracks ==", lambda: comp == other, True),
-                                 ("same tracks !=", lambda: comp != other, False),
-                                 ("itself ==", lambda: comp == comp, True),
-                                 ("one more track ==", lambda: comp == third, False)):
-                ok, got = R.guard("Composition.__eq__", "equality-follows-contents", inputs, fn)
-                if ok and bool(got) != w:
-                    R.fail("Composition.__eq__", "equality-follows-contents", "%s is %r, expected %r" % (label, got, w),
-                           inputs, finding="composition-eq-is-identity" if label.startswith("same tracks") else None)
+                bad = False
+                for i, t in enumerate(tracks):
+                    if comp[i] is not t or comp[i - len(tracks)] is not t:
+                        R.fail(G, "indexing-length-equality-follow-contents", "composition[%d] is not track %d" % (i, i),
+                               inputs)
+                        bad = True
+                        break
+                    d = diff_state(snap(t), models[i])
+                    if d:
+                        R.fail(G, "add-reaches-exactly-the-selected-tracks", "track %d (selection %r): %s"
+                               % (i, selected, d[1]), inputs)
+                        bad = True
+                        break
+                if bad:
+                    break
+            else:
+                # replacing a track by index; equality with an identically built composition
+                if tracks:
+                    i = rnd.randrange(len(tracks))
+                    nt = Track()
+                    nt.add_notes("G", 2)
+                    comp[i] = nt
+                    if comp[i] is not nt or len(comp) != len(tracks):
+                        R.fail(G, "indexing-length-equality-follow-contents", "composition[%d] = track did not store it"
+                               % i, inputs)
+                    comp[i] = tracks[i]
+                R.case("Composition.__eq__", s)
+                other = Composition()
+                for t in tracks:
+                    other.add_track(t)
+                third = Composition()
+                for t in tracks:
+                    third.add_track(t)
+                extra = Track()
+                extra.add_notes("C", 4)
+                third.add_track(extra)
+                for label, fn, w in (("same tracks ==", lambda: comp == other, True),
+                                     ("same tracks !=", lambda: comp != other, False),
+                                     ("itself ==", lambda: comp == comp, True),
+                                     ("one more track ==", lambda: comp == third, False)):
+                    ok, got = R.guard("Composition.__eq__", "equality-follows-contents", inputs, fn)
+                    if ok and bool(got) != w:
+                        R.fail("Composition.__eq__", "equality-follows-contents", "%s is %r, expected %r" % (label, got, w),
+                               inputs, finding="composition-eq-is-identity" if label.startswith("same tracks") else None)
 
     R.assumptions.append("whether an item fits is Bar.place_notes' float comparison (C13): an exact fit refused after "
                          "float drift is adopted from the library, not judged here (group float-boundary-adopted "
